@@ -25,25 +25,25 @@ def lp(w, x):
 
 def hash_(x, Nh):
     t = App('Hash', x)
-    terms.LEN.setdefault(t, Nh)
+    terms.note_len(t, Nh)
     return t
 
 
 def expand(prk, info, L):
     t = App('Expand', prk, info, Int(L))
-    terms.LEN.setdefault(t, L)
+    terms.note_len(t, L)
     return t
 
 
 def extract(salt, ikm, Nh):
     t = App('Extract', salt, ikm)
-    terms.LEN.setdefault(t, Nh)
+    terms.note_len(t, Nh)
     return t
 
 
 def mac(k, m, Nh):
     t = App('Mac', k, m)
-    terms.LEN.setdefault(t, Nh)
+    terms.note_len(t, Nh)
     return t
 
 
